@@ -397,3 +397,8 @@ for local_names, free_names in (({"north", "south", "east", "west"}, {"helper", 
     c.native = False
     c.on_exit = capture_on_exit
     con.cases.append(c)
+
+
+# C10 ("evaluates during compilation to exactly the values CPython produces"): a definition cached with the values its global /
+# closure names had in an EARLIER compilation is evaluated with stale values -- the discard on every exit is part of C10 as well
+contract("cohdl._compiler.frontend._prepare_ast:ConvertPythonInstance.__exit__", ("C10",))
